@@ -35,7 +35,7 @@ func (c respCase) size() int {
 	return n
 }
 
-var recResp = ev.New("c14/nts-response-cookies", "rapid: 1..8 cookies (all of one length 1..200 - dense at 4, 16, 20, 24, 28, 100, 124 and at lengths that are not multiples of 4 - or, for a quarter of the cases, of individual lengths) packed by NewResponsePacket into the encrypted part of a response, EncodePacket; oracle: no panic; the harness opens the authenticator itself (own AES-SIV call) and walks the plaintext with its own walker: exactly the cookies, in order, as 4-byte aligned cookie fields, values equal up to zero padding; DecodePacket + ProcessResponse (the client's path) return the same cookies. One evaluation = one packet. Non-trivial: a cookie shorter than 24 bytes, a length that is not a multiple of 4, or unequal lengths; distinct by the case parameters")
+var recResp = ev.New("c14/nts-response-cookies", "rapid: 1..8 cookies (all of one length 1..200 - dense at 4, 16, 20, 24, 28, 100, 124 and at lengths that are not multiples of 4 - or, for a quarter of the cases, of individual lengths) packed by NewResponsePacket into the encrypted part of a response, EncodePacket; oracle: no panic; the harness opens the authenticator itself (own AES-SIV call) and walks the plaintext with its own walker: exactly the cookies, in order, as 4-byte aligned cookie fields, values equal up to zero padding; DecodePacket + ProcessResponse (the client's path; four times in five with 4..16 bytes of additional padding in the authenticator field) return the same cookies. One evaluation = one packet. Non-trivial: a cookie shorter than 24 bytes, a length that is not a multiple of 4, or unequal lengths; distinct by the case parameters")
 
 func TestPropNTSResponseCookies(t *testing.T) {
 	vt.Check(t, 20000, 200000, func(t *rapid.T) {
@@ -145,7 +145,16 @@ func checkResp(c respCase) (msg string) {
 	if i != len(cookies) {
 		return fmt.Sprintf("encrypted part holds %d cookie fields, %d were encoded", i, len(cookies))
 	}
-	// the client's path
+	// the client's path; for four responses in five with additional padding in the authenticator field (RFC 8915 5.6)
+	if pad := 4 * int(c.Filler%5); pad > 0 && len(b)+pad <= nts.MaxPacketLen {
+		for pos := 48; pos+4 <= len(b); pos += int(binary.BigEndian.Uint16(b[pos+2:])) {
+			if binary.BigEndian.Uint16(b[pos:]) == 0x404 {
+				binary.BigEndian.PutUint16(b[pos+2:], binary.BigEndian.Uint16(b[pos+2:])+uint16(pad))
+				b = append(b, make([]byte, pad)...)
+				break
+			}
+		}
+	}
 	var d nts.Packet
 	if err := nts.DecodePacket(&d, b); err != nil {
 		return "DecodePacket refused the project's own response: " + err.Error()
